@@ -93,17 +93,30 @@ def install_models(M):
     X['_ZSt25__throw_bad_function_callv'] = lambda: throw_std('_ZTISt17bad_function_call')
     X['_ZSt20__throw_system_errori'] = lambda e: throw_std('_ZTISt12system_error')
     X['_ZSt21__glibcxx_assert_failPKciS0_S0_'] = lambda *a: (_ for _ in ()).throw(Violation('assert-fail', 'libstdc++ assertion'))
-    def rt_error_ctor(selfp, msg):
-        st(selfp, 8, msg)
-    def rt_error_ctor_str(selfp, s):
-        st(selfp, 8, ld(s, 0))
-    for nm in ('_ZNSt13runtime_errorC1EPKc', '_ZNSt13runtime_errorC2EPKc', '_ZNSt11logic_errorC1EPKc', '_ZNSt11logic_errorC2EPKc',
-               '_ZNSt12out_of_rangeC1EPKc', '_ZNSt16invalid_argumentC1EPKc', '_ZNSt12length_errorC1EPKc'):
-        X[nm] = rt_error_ctor
-    for nm in ('_ZNSt13runtime_errorC1ERKNSt7__cxx1112basic_stringIcSt11char_traitsIcESaIcEEE', '_ZNSt13runtime_errorC2ERKNSt7__cxx1112basic_stringIcSt11char_traitsIcESaIcEEE',
-               '_ZNSt11logic_errorC1ERKNSt7__cxx1112basic_stringIcSt11char_traitsIcESaIcEEE', '_ZNSt11logic_errorC2ERKNSt7__cxx1112basic_stringIcSt11char_traitsIcESaIcEEE'):
-        X[nm] = rt_error_ctor_str
-    def rt_error_copy(selfp, other): st(selfp, 8, ld(other, 8))
+    def set_vptr(selfp, cls):
+        vt = '_ZTV' + cls
+        if vt in M.gid: st(selfp, 0, Ptr(M.gid[vt], 16)); return
+        # the class's vtable lives in libstdc++.so and is not referenced by this module: synthesise it
+        key = ('vtable', cls)
+        o = M.extra.get(key)
+        if o is None:
+            o = M.new_obj(40, 'const', vt)
+            what = '_ZNKSt11logic_error4whatEv' if cls in ('St11logic_error', 'St12out_of_range', 'St16invalid_argument', 'St12length_error') else '_ZNKSt13runtime_error4whatEv'
+            o.cells[0] = (8, 0); o.cells[8] = (8, Ptr(M.gid['_ZTI' + cls], 0) if ('_ZTI' + cls) in M.gid else NULL)
+            o.cells[16] = (8, Fn('vp_noop_dtor')); o.cells[24] = (8, Fn('vp_noop_dtor')); o.cells[32] = (8, Fn(what))
+            M.extra[key] = o
+        st(selfp, 0, Ptr(o.id, 16))
+    def mk_ctor(cls, from_string):
+        def ctor(selfp, msg):
+            set_vptr(selfp, cls)
+            st(selfp, 8, ld(msg, 0) if from_string else msg)
+        return ctor
+    for cls, mang in (('St13runtime_error', '_ZNSt13runtime_error'), ('St11logic_error', '_ZNSt11logic_error'), ('St12out_of_range', '_ZNSt12out_of_range'),
+                      ('St16invalid_argument', '_ZNSt16invalid_argument'), ('St12length_error', '_ZNSt12length_error')):
+        for v in ('C1', 'C2'):
+            X[mang + v + 'EPKc'] = mk_ctor(cls, False)
+            X[mang + v + 'ERKNSt7__cxx1112basic_stringIcSt11char_traitsIcESaIcEEE'] = mk_ctor(cls, True)
+    def rt_error_copy(selfp, other): set_vptr(selfp, 'St13runtime_error'); st(selfp, 8, ld(other, 8))
     X['_ZNSt13runtime_errorC1ERKS_'] = rt_error_copy; X['_ZNSt13runtime_errorC2ERKS_'] = rt_error_copy
     for nm in ('_ZNSt13runtime_errorD1Ev', '_ZNSt13runtime_errorD2Ev', '_ZNSt11logic_errorD1Ev', '_ZNSt11logic_errorD2Ev', '_ZNSt9exceptionD2Ev', '_ZNSt9exceptionD1Ev',
                '_ZNSt12out_of_rangeD1Ev', '_ZNSt16invalid_argumentD1Ev', '_ZNSt12length_errorD1Ev', '_ZNSt8bad_castD2Ev', '_ZNSt8bad_castD1Ev', '_ZNSt9bad_allocD1Ev',
@@ -111,7 +124,8 @@ def install_models(M):
         X[nm] = lambda p: None
     X['_ZNKSt13runtime_error4whatEv'] = lambda p: ld(p, 8)
     X['_ZNKSt11logic_error4whatEv'] = lambda p: ld(p, 8)
-    X['_ZNKSt9exception4whatEv'] = lambda p: NULL
+    X['_ZNKSt9exception4whatEv'] = lambda p: cstr_obj(b'std::exception')
+    X['vp_noop_dtor'] = lambda p: None
     X['_ZNSt8ios_base4InitC1Ev'] = lambda a: None
     X['_ZNSt8ios_base4InitD1Ev'] = lambda a: None
     def dyn_cast(p, src, dst, hint):
